@@ -245,6 +245,13 @@ def gen_cases(ctx):
     for s in fixed:
         for sw in (False, True):
             cases.append({"kind": "fixed", "s": s.encode().hex(), "swap": sw})
+    # the same string translated again and again, for uplink and downlink PDRs in turn (what an SMF does with the one flow
+    # description of a service data flow): every translation must come out as the first one did
+    for k in range(60 * scale):
+        r = gen_rule(rnd, rnd.randrange(10 ** 6))
+        sx = render(r, gen_spacing(rnd, plain=True)).hex()
+        for sw in (True, False, True, False, False, True):
+            cases.append({"kind": "repeat", "s": sx, "swap": sw})
     return cases
 
 
